@@ -636,11 +636,11 @@ fn main() {
             stats.merge(p);
         }
         if stats.get("distinct_winners") <= stats.get("race_scenarios") {
-            machinery("vacuous race exploration: the same thread won on every schedule");
+            vacuous("vacuous race exploration: the same thread won on every schedule");
         }
     }
     if outcomes.len() < 4 {
-        machinery(&format!("vacuous: outcomes {outcomes:?}"));
+        vacuous(&format!("vacuous: outcomes {outcomes:?}"));
     }
     stats.add("states", outcomes.len() as u64);
     let mut cov = stats.to_json();
